@@ -23,9 +23,10 @@ for ID in ids:
             continue
         t0 = time.time()
         env = dict(os.environ, EAO_REPO=D)
-        p = subprocess.run('/venv/bin/python -m checks.run %s --tier quick' % ID, shell=True, cwd='/verif', capture_output=True, text=True, env=env)
+        PROP = ID[:3]
+        p = subprocess.run('/venv/bin/python -m checks.run %s --tier quick' % PROP, shell=True, cwd='/verif', capture_output=True, text=True, env=env)
         vio = [l[:500] for l in p.stdout.splitlines() if l.startswith('VIOLATION')]
-        meta.setdefault('checks', {})[ID + '_quick'] = dict(rc=p.returncode, violations=len(vio), first=vio[:2], last=(p.stdout.strip().splitlines() or [''])[-1][:200],
+        meta.setdefault('checks', {})[PROP + '_quick'] = dict(rc=p.returncode, violations=len(vio), first=vio[:2], last=(p.stdout.strip().splitlines() or [''])[-1][:200],
                                                            wall=round(time.time() - t0), repo_head=subprocess.check_output(['git', '-C', '/repo', 'log', '--format=%h', '-1']).decode().strip())
         meta['detected_by'] = sorted({k.split('_')[0] for k, v in meta['checks'].items() if v['rc'] == 1})
         json.dump(meta, open(dst + '/meta.json', 'w'), indent=1)
